@@ -666,12 +666,23 @@ pub fn check_c20(tier: Tier) -> i32 {
     for i in 0..n_samples {
         let mut ch = vcommon::Chooser::generate(vcommon::run_seed(base_seed(), "c20-len4", i));
         let mut steps = Vec::new();
-        for k in 0..4 {
+        // one sample in twelve is a long run of 12..40 connections (a port scanner, a client stuck in
+        // a reconnect loop): whatever the exporter remembers about earlier clients must not add up
+        let len = if i % 12 == 11 { ch.range(vcommon::tape::S_WORK, 12, 40) as usize } else { 4 };
+        for k in 0..len {
             let mut st = c20_random_step(&mut ch);
+            if len > 4 && k + 1 < len && ch.chance(vcommon::tape::S_WORK, 3, 4) {
+                // mostly clients that go away without a response
+                let mut t2 = 0;
+                while matches!(st.client, ClientB::Get | ClientB::Split(_)) && t2 < 8 {
+                    st = c20_random_step(&mut ch);
+                    t2 += 1;
+                }
+            }
             // a step of a class that is already known to lose the exporter on its own would hide
             // the rest of the sequence: redraw (except in the last position), and say how often
             let mut tries = 0;
-            while k < 3 && dead.contains(st.client.class()) && tries < 8 {
+            while k + 1 < len && dead.contains(st.client.class()) && tries < 8 {
                 st = c20_random_step(&mut ch);
                 tries += 1;
                 resteered += 1;
